@@ -983,7 +983,7 @@ func (c *Ctx) saBuildRules(r *Report, prefix string) {
 					continue
 				}
 				n++
-				if c.nonNilTestedBetween(w.fn, st, b, fld, gen) {
+				if c.nonNilTestedBetween(w.fn, st, b, fld, gen) || c.decodedValueTestedBefore(st.Val, b) {
 					continue
 				}
 				okAll = false
@@ -1175,6 +1175,91 @@ func (c *Ctx) nonNilTestedBetween(fn *ssa.Function, st *ssa.Store, b *ssa.BasicB
 			continue
 		}
 		if dfs(s) {
+			return false
+		}
+	}
+	return true
+}
+
+// decodedValueTestedBefore: the stored value is assembled from locals (the struct is filled at the end);
+// every origin of it is the nil constant (transform type absent) or a call result, and block b is not
+// reachable from that call without taking the non-nil edge of a nil test of the result.
+func (c *Ctx) decodedValueTestedBefore(v ssa.Value, b *ssa.BasicBlock) bool {
+	var leaves []ssa.Value
+	seen := map[ssa.Value]bool{}
+	var walk func(x ssa.Value) bool
+	walk = func(x ssa.Value) bool {
+		if seen[x] {
+			return true
+		}
+		seen[x] = true
+		switch t := x.(type) {
+		case *ssa.Phi:
+			for _, e := range t.Edges {
+				if !walk(e) {
+					return false
+				}
+			}
+			return true
+		case *ssa.ChangeInterface:
+			return walk(t.X)
+		case *ssa.Const:
+			return t.IsNil()
+		case *ssa.Call:
+			leaves = append(leaves, t)
+			return true
+		}
+		return false
+	}
+	if !walk(v) || len(leaves) == 0 {
+		return false
+	}
+	for _, leaf := range leaves {
+		call := leaf.(*ssa.Call)
+		type edge struct {
+			from *ssa.BasicBlock
+			to   int
+		}
+		guarded := map[edge]bool{}
+		for _, ref := range *call.Referrers() {
+			cond, ok := ref.(*ssa.BinOp)
+			if !ok || (cond.Op != token.EQL && cond.Op != token.NEQ) || !(isNilConst(cond.X) || isNilConst(cond.Y)) {
+				continue
+			}
+			for _, r2 := range *cond.Referrers() {
+				if iff, ok := r2.(*ssa.If); ok {
+					nn := 1
+					if cond.Op == token.NEQ {
+						nn = 0
+					}
+					guarded[edge{iff.Block(), nn}] = true
+				}
+			}
+		}
+		if len(guarded) == 0 {
+			return false
+		}
+		seenB := map[*ssa.BasicBlock]bool{}
+		var dfs func(x *ssa.BasicBlock) bool
+		dfs = func(x *ssa.BasicBlock) bool {
+			if x == b {
+				return true
+			}
+			if seenB[x] {
+				return false
+			}
+			seenB[x] = true
+			for i, s := range x.Succs {
+				if guarded[edge{x, i}] {
+					continue
+				}
+				if dfs(s) {
+					return true
+				}
+			}
+			return false
+		}
+		if dfs(call.Block()) {
 			return false
 		}
 	}
